@@ -405,3 +405,15 @@ Proof.
   unfold G. eapply IndexBridgeC10Old.finalize_old_wf_indexed; eauto.
 Qed.
 Print Assumptions cavity_wall_indicator_in_kernel_for_every_loaded_geometry_old_ordering.
+
+(* Round 5: the dimension-bookkeeping clause at the level of single vertices: in every geometry accepted by finalize,
+   a vertex of ANY mesh that is not isolated -- in particular a rim vertex shared with an excluded mesh -- has an unknown
+   index that is a row of the head matrix (never the "no unknown" marker, which is >= the dimension) *)
+Theorem participating_mesh_vertices_have_rows : forall g hasc zero snz fi sig sinv ind,
+  GeomModel.finalize g hasc zero snz false = (GeomModel.StOk, Some fi) -> IndexBridgeC10.meshes_well_formed g ->
+  forall k v, (k < length (GeomModel.g_meshes g))%nat ->
+  GeomModel.f_iso (nth k (GeomModel.mk_flags (GeomModel.fi_marks fi)) GeomModel.flags0) = false ->
+  In v (mverts (gmesh (IndexBridgeC10.to_igeom g fi sig sinv ind) k)) ->
+  (vix (IndexBridgeC10.to_igeom g fi sig sinv ind) v < hm_dim (IndexBridgeC10.to_igeom g fi sig sinv ind))%N.
+Proof. exact DimensionBridgeC10.participating_vertex_has_row. Qed.
+Print Assumptions participating_mesh_vertices_have_rows.
